@@ -55,7 +55,7 @@ def cells(tier):
     sc = scen(pool(2), [[M("M", 2, 2)], [["gac", {"when": "quiet_idle"}]], [["cancel_op", 1]],
                         [["unlock", {"after": [1, 1], "after_done": True}], M("N", 2, 2)]],
               outcomes=["ret"], ecb="slow", ccb="plain", slow_ids=[0, 1])
-    out.append(cell("s2 M2/2|gac@idle|cancel-the-close|unlock,N2/2 slowecb", sc, MON))
+    out.append(cell("s2 M2/2|gac@idle|cancel-the-close|unlock,N2/2 slowecb", sc, MON, own_only=True))
     # a pool that is locked (or closing) after the call was accepted, then grown: the call uses the new places
     for old, new in [(1, 3), (0, 2)]:
         sc = scen(pool(old), [[M("M", 3, 2)], [LOCK, ["set_size", new]]], outcomes=["ret"])
